@@ -22,7 +22,7 @@ RULE = ('cases are sequences of 2-10 foreign (reference-peer) or PGPy-made signa
         'comparison and the verify verdict were evaluated; distinct = distinct sequences of (signature type, sorted '
         'subpacket types) among non-trivial runs')
 TIERS = {'quick': {'runs': 4000, 'budget_s': 60}, 'thorough': {'runs': 250000, 'budget_s': 1500}}
-PROBES = ('signature_object_reused', 'embedded_back_signature', 'verified_via_copy', 'unknown_subpacket_type', 'critical_bit', 'nonshortest_length', 'five_octet_length', 'two_octet_length',
+PROBES = ('attestation_computed_over_received_signature', 'signature_object_reused', 'embedded_back_signature', 'verified_via_copy', 'unknown_subpacket_type', 'critical_bit', 'nonshortest_length', 'five_octet_length', 'two_octet_length',
           'boolean_other', 'boolean_true', 'flag_unknown_bits', 'multi_octet_flags', 'non_ascii_text', 'non_utf8_text',
           'rejected_at_parse', 'flip_rejected_at_parse', 'flip_verified_false', 'pgpy_made_reimported', 'empty_subpacket_body',
           'old_format_header', 'rsa_signer', 'dsa_signer', 'ecdsa_signer', 'eddsa_signer')
@@ -147,7 +147,7 @@ def generate(rng, tier):
                       'issuer_hashed': issuer_hashed, 'issuer_fpr': fpr, 'fmt': rng.choice(['new', 'new', 'old']),
                       'faults': [{'kind': 'F1', 'pos': rng.random()} for _ in range(nflips)],
                       'sweep': tier == 'thorough' and rng.random() < 0.05, 'via_copy': rng.random() < 0.4,
-                      'reuse_object': rng.random() < 0.25})
+                      'reuse_object': rng.random() < 0.25, 'attest_then_recheck': rng.random() < 0.4})
     return {'config': {'keykind': kind, 'created': created, 'uid': rng.choice(['Foreign Signer <f@example.org>', 'Søren <s@example.org>'])},
             'steps': steps}
 
@@ -469,6 +469,25 @@ def _ref_sign_step(pgpy, pkey, pub, secret, uid_octets, step, ctx, shapes):
             ctx.viol('C05:foreign-valid-rejected-after-copy:type%02x' % styp,
                      'a copy of a valid foreign signature (type 0x%02x) does not verify under PGPy although the parsed object does: %r'
                      % (styp, verdict))
+    if step.get('attest_then_recheck') and styp in (0x10, 0x11, 0x12, 0x13) and verdict is True:
+        # the certification takes part in an attestation computation (another key attests to it); afterwards it is still the
+        # signature that was received: same octets out, same verdict
+        ctx.probe('attestation_computed_over_received_signature')
+        ctx.checked()
+        before = bytes(psig)
+        try:
+            local = world.build_key({'alg': 'ed25519', 'uids': [['Attester', '', 'a@example.org']], 'usage': 'CS'}, 'c05attester')
+            local.certify(local.userids[0], pgpy.constants.SignatureType.Attestation, attested_certifications=[psig])
+            local.certify(local.userids[0], pgpy.constants.SignatureType.Attestation, attested_certifications=[psig])
+        except Exception as e:
+            ctx.event(step['id'], 'attest-raised', type(e).__name__)
+        try:
+            after_ok = bool(pkey.verify(subj_obj, psig))
+        except Exception as e:
+            after_ok = e
+        if bytes(psig) != before or after_ok is not True:
+            ctx.viol('C05:changed-by-attestation', 'after an attestation was computed over a received certification it %s'
+                     % ('exports other octets (%d -> %d)' % (len(before), len(bytes(psig))) if bytes(psig) != before else 'no longer verifies: %r' % (after_ok,)))
     ctx.event(step['id'], 'ref_sign', 'accepted', 'type%02x' % styp, len(hashed))
     types = sorted(set(sp['t'] for sp in step['hashed']) - {2})
     if types:
